@@ -94,7 +94,7 @@ func c03LocalVerdict(cs c03LocalCase, tr *harness.Trace) (fp, what string, nontr
 	}
 	// the first token according to the statement
 	for k := 1; k <= len(cs.input); k++ {
-		want, dead, _, fx := c03ModelFull(cs.t, cs.input[:k])
+		want, dead, _, fx := c03ModelOpt(cs.t, cs.input[:k], true)
 		if fx == -99 || dead {
 			return "", "", false
 		}
